@@ -4,6 +4,7 @@ package main
 
 import (
 	"encoding/json"
+	"sort"
 
 	"github.com/ludo-technologies/pyscn/internal/analyzer"
 )
@@ -49,6 +50,22 @@ func init() {
 			return nil, err
 		}
 		out := map[string]any{}
+		// the tree preparation of apted_tree.go on its own: left-most leaf of every post-order position and the key roots (sorted, as apted.go sorts them)
+		prep := func(nodes []tedNode) map[string]any {
+			p, id := 0, 0
+			t := buildTree(nodes, &p, &id)
+			kr := analyzer.PrepareTreeForAPTED(t)
+			sort.Ints(kr)
+			all := analyzer.GetSubtreeNodes(t)
+			lml := make([]int, len(all))
+			for _, n := range all {
+				if n.PostOrderID >= 0 && n.PostOrderID < len(lml) {
+					lml[n.PostOrderID] = n.LeftMostLeaf
+				}
+			}
+			return map[string]any{"lml": lml, "keyroots": kr}
+		}
+		out["prep1"], out["prep2"] = prep(in.T1), prep(in.T2)
 		for name, cm := range costModels() {
 			p, id := 0, 0
 			t1 := buildTree(in.T1, &p, &id)
